@@ -677,13 +677,71 @@ const Template TEMPLATES[] = {
      }},
 };
 const size_t NTEMPLATES = sizeof(TEMPLATES) / sizeof(TEMPLATES[0]);
+
+//! waiter-program templates (several threads in the same kind of wait)
+struct WTemplate {
+    const char* name;
+    unsigned bound;
+    void (*build)(WProgram&);
+};
+const WTemplate WTEMPLATES[] = {
+    {"two loop_until_terminate waiters, a job terminates while another job is queued (1 worker)", 3, [](WProgram& g) {
+         g.P = 1, g.mode = 0;
+         st.jobs.resize(2);
+         st.jobs[0].terminates = true;
+         g.th.resize(2);
+         g.th[0].roots = {0, 1}, g.th[0].wait_kind = 2;
+         g.th[1].wait_kind = 2;
+         g.term_waiters = 2;
+     }},
+    {"two loop_until_terminate waiters, one of them enqueues a job and terminates first (1 worker)", 2, [](WProgram& g) {
+         g.P = 1, g.mode = 1;
+         st.jobs.resize(1);
+         g.th.resize(2);
+         g.th[0].roots = {0}, g.th[0].terminator = true, g.th[0].wait_kind = 2;
+         g.th[1].wait_kind = 2;
+         g.term_waiters = 2;
+     }},
+    {"two concurrent loop_until_empty waiters, nested job (1 worker)", 3, [](WProgram& g) {
+         g.P = 1, g.mode = 2;
+         st.jobs.resize(2);
+         st.jobs[0].children = {1};
+         g.nested = true;
+         g.th.resize(2);
+         g.th[0].roots = {0}, g.th[0].wait_kind = 1;
+         g.th[1].wait_kind = 1;
+         g.empty_waiters = 2;
+     }},
+};
+const size_t NWTEMPLATES = sizeof(WTEMPLATES) / sizeof(WTEMPLATES[0]);
 } // namespace
 
 PBT_PROPERTY(thread_pool_exhaustive) {
     uint64_t idx = src.bits(8), total = src.bits(8);
-    if (total == 0) total = NTEMPLATES, idx = 0;
+    if (total == 0) total = NTEMPLATES + NWTEMPLATES, idx = 0;
     uint8_t none = 0;
-    for (uint64_t t = idx; t < NTEMPLATES; t += total) {
+    for (uint64_t t = idx; t < NTEMPLATES + NWTEMPLATES; t += total) {
+        if (t >= NTEMPLATES) { // waiter-program templates
+            const WTemplate& T = WTEMPLATES[t - NTEMPLATES];
+            vsched::Explorer ex(T.bound, 30000000);
+            bool was_verbose = pbt::ctx().verbose;
+            pbt::ctx().verbose = false;
+            uint64_t n = ex.explore([&](vsched::Explorer& e) {
+                st.reset();
+                WProgram g;
+                T.build(g);
+                pbt::Source dummy(&none, 0);
+                vsched::Options opt;
+                vsched::Run run(dummy, opt);
+                e.install();
+                wexecute(g);
+            });
+            pbt::ctx().verbose = was_verbose;
+            pbt::count(n);
+            PBT_LOG("template " << t << " (" << T.name << "): " << n << " schedules with <= " << T.bound << " preemptions, complete=" << ex.complete << "\n");
+            if (!ex.complete) pbt::inconclusive();
+            continue;
+        }
         const Template& T = TEMPLATES[t];
         vsched::Explorer ex(T.bound, 30000000);
         bool was_verbose = pbt::ctx().verbose;
